@@ -240,6 +240,9 @@ func c11(args []string) int {
 	if rc := c11Server(run, dir); rc != 0 {
 		return rc
 	}
+	if run.Thorough() || os.Getenv("VH_TWO_PROCESS") != "" {
+		c11TwoProcess(run, dir)
+	}
 	return run.Finish()
 }
 
@@ -274,7 +277,7 @@ func (p *probeCB) OnAccept(rawc net.Conn, _ bool, _ net.Addr, _ chan api.Connect
 	rawc.Close()
 }
 func (p *probeCB) OnNewConnection(ctx context.Context, conn api.Connection) {}
-func (p *probeCB) OnClose()                                                {}
+func (p *probeCB) OnClose()                                                 {}
 func (p *probeCB) OnShutdown() {
 	p.mu.Lock()
 	p.shutdowns++
